@@ -40,7 +40,7 @@ theorem hyphComp_ok (cc : CharClass) (D : Detector) (e s m : Str) (he : e ≠ []
   simp only [pyHead_cons, hel, bind, Except.bind, pure, Except.pure]
   by_cases h0 : strIsUpper cc (s0 :: sr) = true
   · exact ⟨false, by simp [h0]⟩
-  · by_cases h1 : cc.isUpper e0 = true <;> by_cases h2 : el = '-' <;> simp only [h0, h1, h2, if_true, if_false] <;>
+  · by_cases h1 : cc.isUpper e0 = true <;> by_cases h2 : [el] = Generated.C17.compoundHyphen <;> simp only [h0, h1, h2, if_true, if_false] <;>
       skip
     all_goals simp only [Bool.false_eq_true, if_false]
     all_goals repeat' split
@@ -79,12 +79,12 @@ theorem determine_some_range (cc : CharClass) (D : Detector) (B0 : BreakSet) (pw
   clear hm hb1 hb2 h0
   generalize (if D.breakChars el = true then D.bigram (List.dropLast e) (s0 :: sr) else D.bigram e (s0 :: sr)) = bf
   generalize hasNonMergeWord cc D e (s0 :: sr) = c1
-  generalize endStartAreBigram D m bf 5 = c2
+  generalize endStartAreBigram D m bf Generated.C17.bigramFactorFirst = c2
   generalize cc.isUpper s0 = c3
-  generalize startWordHasIncorrectTitlecase cc D e (s0 :: sr) 10 = c4
+  generalize startWordHasIncorrectTitlecase cc D e (s0 :: sr) Generated.C17.titlecaseFactor = c4
   generalize hasCommonMergeEnd D e (s0 :: sr) = c5
-  generalize endStartAreBigram D m bf 2 = c6
-  generalize endIsCommonWord D e 1000 = c7
+  generalize endStartAreBigram D m bf Generated.C17.bigramFactorSecond = c6
+  generalize endIsCommonWord D e Generated.C17.commonFreq = c7
   generalize mergeIsMoreCommon D e (s0 :: sr) m = c8
   generalize D.breakChars el = c9
   have fin0 : ∃ d : Decision, (Except.ok (false, none) : Res Decision) = .ok d ∧
